@@ -240,6 +240,7 @@ func init() {
 			"Not decided: counts, run/edge finders, fill values, that valid positions get the unmasked value of elementwise operations.",
 		Quick: []string{"default", "inplacetranspose"},
 		Run: func(rc *rules.RC) {
+			rules.MK(rc, 15)
 			rules.K1(rc, rules.Families(rc.P), func(f string) bool { return strings.HasPrefix(f, "internal/execution.") }, 2000)
 			rules.B2(rc)
 			rules.DA(rc, 50)
@@ -249,7 +250,7 @@ func init() {
 			rules.I12(rc)
 			rules.S9(rc)
 			rules.S2(rc)
-			rules.SP(rc, "C15", 3)
+			rules.SP(rc, "C15", 4)
 			rules.LGuards(rc, "C15")
 			rules.LF(rc, 20)
 			rules.TMask(rc)
@@ -385,6 +386,7 @@ func init() {
 		Explain: "Decides: (L0) IsColMajor/IsRowMajor/HasSameOrder are what they claim and prepDataVV/VS/SV/Unary iterate whenever two participants disagree on data order; (L3) raw two-tensor accesses (Copy, Float32/64Engine.Add) and row-major-only kernels (ReduceFirst/ReduceLast) are conditioned on the data order; (L4) exporters into row-major formats consult it; (LB) BLAS gateways derive leading dimensions from each operand's order; (LD) every argument of every BLAS call is the one the operands' and the result's data order and lazy-transpose state require (all 32 layout cases of MatMul, 4 of MatVecMul, Outer, Inner); (T4) stride routines are selected by order in calcStrides and Transpose; (S10) the two stride calculators are one recurrence run in opposite directions; (S11) whoever flips the column-major bit recomputes the strides; (S12) AP.S picks the outermost axis by data order and marks column-major slices non-contiguous; (K3/K1arms) the typed arms of the BLAS gateways agree with each other (an operand swap in one precision is reported); (LC/LF) new raw copies / flat element loops must be layout-guarded and (LF) order-aware. Several of these fail on the pinned tree and are listed as known findings (17-19, 21, 40, 41). " +
 			"Not decided: block-size arithmetic of stack/concat under column-major (seed R2C16b is not caught); StackDense order agreement.",
 		Run: func(rc *rules.RC) {
+			rules.ND(rc, 36)
 			rules.T7(rc)
 			rules.S19(rc)
 			rules.T8(rc)
@@ -456,6 +458,8 @@ func init() {
 			"Not decided: corruption through backing arrays the API documents as shared; use-after-return inside one function (O9) beyond the rules above.",
 		Assume: []string{"interface calls resolve to the module's implementing types (CHA restricted to the module)", "flow-insensitive origin tracing through locals and captured variables (over-approximates aliases)"},
 		Run: func(rc *rules.RC) {
+			rules.M2W(rc, 700)
+			rules.MK(rc, 15)
 			rules.T7(rc)
 			rules.O9(rc, 20)
 			rules.V2(rc, 2)
@@ -501,6 +505,7 @@ func init() {
 		Explain:   kmExplain("the arithmetic (Add Sub Mul Div Mod Pow) and min/max kernels, dispatchers and engine methods", "eng_arith.go, eng_minmaxbetween.go"),
 		Assume:    []string{"see C07 for the interpreter's summaries"},
 		Run: func(rc *rules.RC) {
+			rules.ND(rc, 36)
 			fams := rules.Families(rc.P)
 			f := groupFilter("arith", "minmax")
 			rules.K1(rc, fams, f, 1200)
@@ -520,6 +525,7 @@ func init() {
 		Explain:   kmExplain("the comparison (Gt Gte Lt Lte Eq Ne) kernels in their bool and same-type forms, dispatchers and engine methods", "eng_cmp.go"),
 		Assume:    []string{"see C07 for the interpreter's summaries"},
 		Run: func(rc *rules.RC) {
+			rules.ND(rc, 36)
 			fams := rules.Families(rc.P)
 			f := groupFilter("cmp")
 			rules.K1(rc, fams, f, 1040)
@@ -560,6 +566,7 @@ func init() {
 			"Not decided: behaviour of the Go operators themselves, accuracy of math routines, and agreement of results after conversion between types (a runtime relation).",
 		Assume: []string{"sibling specialisations are meant to be instances of one template (the genlib2 design)", "a template-wide change that K2's operator table does not cover is not detected by sibling comparison"},
 		Run: func(rc *rules.RC) {
+			rules.SP(rc, "C17", 3)
 			rules.DA(rc, 50)
 			fams := rules.Families(rc.P)
 			rules.K1(rc, fams, nil, 2900)
